@@ -398,6 +398,75 @@ static void cut_then_frames_case(int codec)
     mc::more_cases(n - 1, n - 1);
 }
 
+// ---- long histories: ONE receiver object, hundreds of thousands of bytes -------------------------------------
+// The BFS merges states that look equal, so no receiver there ever consumes more than a few dozen bytes.  A counter
+// or clock inside the object (narrowed to 16 bits, compared the wrong way round after a wrap) needs ONE object with a
+// long life.  Variant 0: >= 200000 (thorough 400000) bytes of back-to-back well-formed frames with payloads of varying
+// length and content - every frame must be delivered, intact, on its last byte.  Variants 1..: a stretch of G bytes
+// without any complete frame (kind A: idle noise without markers; kind B: one start marker, then data that overflows
+// again and again) for every G in 65516..65540 and for 70000 and 131060, then three frames (START != STOP: all three
+// delivered; START == STOP: the second and third).  The clause monitor judges every single byte as everywhere else.
+static Bytes varied_payload(const gs::Markers &M, unsigned k)
+{
+    unsigned len = (k * 7) % 11; // 0..10, stride coprime to 11
+    Bytes p;
+    for (unsigned i = 0; i < len; i++)
+    {
+        unsigned sel = (k * 5 + i * 3) % 8;
+        p.push_back(sel == 0 ? M.start : sel == 1 ? M.stub : sel == 2 ? M.stop : sel == 3 ? 0x00 : sel == 4 ? 0xFF : (uint8_t)(k + i * 13));
+    }
+    return p;
+}
+static bool feed_frame_expect(Rig &rig, const gs::Markers &M, const Bytes &p, bool required, const char *what)
+{
+    Bytes f = gsref::encode(M, p);
+    bool ok = false;
+    for (size_t i = 0; i < f.size(); i++)
+    {
+        rig.feed(f[i]);
+        if (i + 1 == f.size())
+            ok = rig.mon.delivered && rig.mon.packet == p;
+        else if (rig.mon.delivered)
+            required = true, ok = false, i = f.size(); // a packet in the middle of a frame: the monitor has reported it too
+    }
+    if (required && !ok)
+        mc::violation(mc::fmt("C05.%s.long_history.%s", gs::codec_name(rig.codec), what),
+                      "after %zu bytes on this receiver: frame with payload %s was not delivered intact on its last byte (last answer %s)",
+                      rig.stream.size(), shx(p).c_str(), gs::status_name(rig.last));
+    return ok;
+}
+static const int LONG_G[] = {65516, 65517, 65518, 65519, 65520, 65521, 65522, 65523, 65524, 65525, 65526, 65527, 65528, 65529, 65530, 65531, 65532,
+                             65533, 65534, 65535, 65536, 65537, 65538, 65539, 65540, 70000, 131060};
+static void long_history_case(int codec)
+{
+    gs::Markers M = gsref::golden(codec);
+    const int NG = sizeof LONG_G / sizeof LONG_G[0];
+    int v = mc::choose(1 + 2 * NG);
+    mc::nontrivial();
+    Rig rig(codec, 16, !M.same());
+    if (v == 0)
+    {
+        size_t want = mc::thorough() ? 400000 : 200000;
+        mc::describe("codec=%s one receiver (cap 16), back-to-back frames with varying payloads until %zu bytes are consumed", gs::codec_name(codec), want);
+        unsigned k = 0, bad = 0;
+        while (rig.stream.size() < want && bad < 3)
+            bad += !feed_frame_expect(rig, M, varied_payload(M, k++), true, "frame_in_clean_traffic_not_delivered");
+        mc::outcome(mc::fmt("%s frames=%u bad=%u", gs::codec_name(codec), k, bad));
+        mc::count("long_history_bytes", (long)rig.stream.size());
+        return;
+    }
+    int G = LONG_G[(v - 1) % NG], kind = (v - 1) / NG;
+    mc::describe("codec=%s one receiver (cap 16): %d bytes without a complete frame (%s), then three frames", gs::codec_name(codec), G,
+                 kind == 0 ? "noise without markers" : "a start marker, then data overflowing the line again and again");
+    for (int i = 0; i < G; i++)
+        rig.feed(kind == 1 && i == 0 ? M.start : (uint8_t)('a' + i % 7));
+    bool a = feed_frame_expect(rig, M, Bytes{'x', M.start, 'y'}, !M.same(), "first_frame_after_long_silence_not_delivered");
+    bool b = feed_frame_expect(rig, M, Bytes{M.stub}, true, "second_frame_after_long_silence_not_delivered");
+    bool c = feed_frame_expect(rig, M, Bytes{}, true, "third_frame_after_long_silence_not_delivered");
+    mc::outcome(mc::fmt("%s silence ok=%d%d%d", gs::codec_name(codec), a, b, c));
+    mc::count("long_history_bytes", (long)rig.stream.size());
+}
+
 // ---- two receivers (of different alphabets, or two of the same kind) alive in one process ------------------------------------------------
 // Anything a receiver keeps outside its own object (a function-local static, a cached comparison) is decided by the
 // receiver that runs first in the process.  Every case gets a FRESH worker process (mc::request_restart), creates two
@@ -474,5 +543,6 @@ MC_INIT
         mc::add_check(mc::fmt("fault_sequences.%s", gs::codec_name(codec)), [codec] { fault_case(codec); });
         mc::add_check(mc::fmt("large_buffers.%s", gs::codec_name(codec)), [codec] { large_buffer_case(codec); });
         mc::add_check(mc::fmt("cut_then_frames.%s", gs::codec_name(codec)), [codec] { cut_then_frames_case(codec); });
+        mc::add_check(mc::fmt("long_history.%s", gs::codec_name(codec)), [codec] { long_history_case(codec); });
     }
 }
